@@ -20,6 +20,7 @@ partial def parseTy : List String → Option (ATy × List String)
   | "str" :: r => some (.str, r)
   | "raw" :: r => some (.rawValue, r)
   | "flag" :: r => some (.flag, r)
+  | "time" :: r => some (.time, r)
   | "seq" :: s :: r =>
     match parseBool? s, parseTy r with
     | some s, some (e, r') => some (.seqOf s e, r')
@@ -56,6 +57,7 @@ partial def showVal : ATy → AVal → List String
   | _, .str _ s => ["s" ++ hexOrDash s]
   | _, .raw c t k content full => [s!"r{c}.{t}.{boolStr k}:{hexOrDash content}:{hexOrDash full}"]
   | _, .flag b => ["f" ++ boolStr b]
+  | _, .time t => [if t == ⟨1, 1, 1, 0, 0, 0, 0, 0⟩ then "T0" else s!"T{t.unix}.{t.nsec}.{t.offset}"]
   | .struct raw fs, .struct rv vs =>
     s!"S{vs.length}" :: ((if raw then ["R" ++ hexOrDash (rv.getD [])] else []) ++ showVals fs vs)
   | .seqOf _ e, .list vs => s!"L{vs.length}" :: vs.flatMap (showVal e)
